@@ -135,14 +135,17 @@ func topicInit(t *Topic, join *ClientComMessage, h *Hub) {
 func initTopicMe(t *Topic, sreg *ClientComMessage) error {
 	t.cat = types.TopicCatMe
 
-	user, err := store.Users.Get(types.ParseUserId(t.name))
+	uid := types.ParseUserId(t.name)
+	user, err := store.Users.Get(uid)
 	if err != nil {
-		// Log out the session
-		sreg.sess.uid = types.ZeroUid
+		// A database error says nothing about the account: don't log the session out.
 		return err
 	} else if user == nil {
-		// Log out the session
-		sreg.sess.uid = types.ZeroUid
+		if sreg.sess.uid == uid {
+			// The account is gone: log out the session. A session acting on behalf
+			// of another user (root) stays logged in.
+			sreg.sess.uid = types.ZeroUid
+		}
 		return types.ErrUserNotFound
 	}
 
